@@ -8,9 +8,12 @@ PID = "C18"
 def check(tier):
     rep = Reporter(PID, tier)
     pvh = build_harness()
-    filtercommon.filter_replay(rep, pvh, ["slice", "pad", "trunc", "seq", "num", "widthratio"])
-    rep.assumptions += ["date / time / stringformat hand their argument to Go's time.Format / fmt.Sprintf and floatformat / float to IEEE "
-                        "formatting: outside TLA+'s vocabulary, exercised under C01/C19 only",
+    filtercommon.filter_replay(rep, pvh, ["slice", "pad", "trunc", "seq", "num", "widthratio", "float", "fmt"])
+    rep.assumptions += ["numbers with a fractional part are modelled as thousandths; floatformat inputs that are an exact decimal tie but not exact in "
+                        "binary (1.005 at two places) have no settled rounding and are not generated; exact ties (multiples of 1/8) round to even, "
+                        "as strconv does (Django rounds half up: pongo2's own behaviour is the reference here)",
+                        "stringformat is modelled for the verbs %d %s %v with width and the '-' and '0' flags and literal text around them; date / time "
+                        "for two instants and layouts made of Go reference-time tokens; other verbs and layouts reach fmt / time unchanged",
                         "where pongo2's fixtures pin a deviation from Django (add concatenates, center puts the odd space left, wordwrap counts "
                         "words, get_digit on non-numbers) the reference follows the fixture or the input is not generated",
                         "widthratio: an exact half may round either way"]
@@ -19,7 +22,9 @@ def check(tier):
              "lengths 0..12; truncatechars -1..14 x 0..12; truncatewords/wordwrap -1..6 x 8 texts; first/last/length/length_is/join/make_list/"
              "cut/split/wordcount/linenumbers/linebreaksbr/capfirst/upper/lower over 8 texts and 7 sequences; add/default/default_if_none over "
              "15^2 value pairs, divisibleby -12..24 x -4..6, get_digit, pluralize, yesno with every argument shape; widthratio 0..12 x 1..12 x "
-             "{7, 10, 100}. TLC checks shape invariants (contiguous subsequence, padding only with spaces on the stated side, length bounds); "
+             "{7, 10, 100}; floatformat over every multiple of 1/8 in -3..3 and 23 boundary values x 17 arguments (none, -4..5, 1001, numeric and "
+             "non-numeric text), integer / float conversions; stringformat (2 x 2 literal contexts x 3 flags x 4 widths x 3 verbs x 8 values); "
+             "date / time (2 instants x 8 layouts, and every non-time input: an error). TLC checks shape invariants (contiguous subsequence, padding only with spaces on the stated side, length bounds); "
              "every case is replayed through ApplyFilter and through the template syntax.",
         exhaustive=True)
 
